@@ -214,6 +214,12 @@ fn main() {
                     run_block(&c, &mut out);
                     so.write_all(out.as_bytes()).unwrap();
                 }
+            } else if fam == "ep:cfglive" {
+                for c in gen::gen_cfglive(&mut rng, count) {
+                    let mut out = String::new();
+                    run_block(&c, &mut out);
+                    so.write_all(out.as_bytes()).unwrap();
+                }
             } else if fam == "hs:cuts" {
                 for c in genhs::gen_cuts(&mut rng) {
                     let mut out = String::new();
@@ -232,7 +238,7 @@ fn main() {
                     run_block(&c, &mut out);
                     so.write_all(out.as_bytes()).unwrap();
                 }
-            } else if let (Some(prof), false) = (fam.strip_prefix("ep:"), fam == "ep:pipe" || fam == "ep:exhaustive" || fam == "ep:maskpaths" || fam == "ep:slotrace" || fam == "ep:utf8cuts" || fam == "ep:wbound") {
+            } else if let (Some(prof), false) = (fam.strip_prefix("ep:"), fam == "ep:pipe" || fam == "ep:exhaustive" || fam == "ep:maskpaths" || fam == "ep:slotrace" || fam == "ep:utf8cuts" || fam == "ep:wbound" || fam == "ep:cfglive") {
                 let prof = gen::profile_of(prof);
                 for i in 0..count {
                     let mut r = rng.fork();
